@@ -370,7 +370,11 @@ func writeReplay(eng *Engine, dir, id string, o *Obligation) string {
 			fmt.Fprintf(&sb, "  %s = %s\n", k, o.model[k])
 		}
 	}
-	fmt.Fprintf(&sb, "smt file: %s\nsolver output:\n%s\n", o.smt, o.output)
+	outp := o.output
+	if len(outp) > 6000 {
+		outp = outp[:6000] + "\n... (truncated; rerun the solver on the smt file for the full model)\n"
+	}
+	fmt.Fprintf(&sb, "smt file: %s\nsolver output:\n%s\n", o.smt, outp)
 	if r := tryReplay(eng, dir, id, o); r != "" {
 		sb.WriteString(r)
 	}
